@@ -288,7 +288,7 @@ def check_constancy(model, rep):
 
 
 def run(model, rep, tier):
-    from rules.c02 import check_compiled_subset_dependencies
+    from rules.c02 import check_compiled_subset_dependencies, check_fields_announced
     rep.explanation = (
         'R06.1 guard implication: for InRange->index, Mod->dividend, Minimum/Maximum->operand, NormDim->index and ->index+length, InsertAxis._inverse->singular, _isindex, Power exponents and '
         'Array._const_uniform, the facts on every structurally enumerated path to the licensing return are translated to atoms over symbolic lo/hi terms (aliases from `lo, hi = x._intbounds` substituted) and an '
@@ -304,6 +304,7 @@ def run(model, rep, tier):
     check_transfer(model, rep)
     check_constancy(model, rep)
     check_compiled_subset_dependencies(model, rep, rule='R06.2')
+    check_fields_announced(model, rep, rule='R06.2')
     rep.require('R06.1', 14)
     rep.require('R06.4', 12)
     rep.require('R06.3', 6)
